@@ -9,5 +9,6 @@ Extraction "model.ml" zp_setdegree zp_degree zp_leadcoef zp_isZero zp_areEqual z
   zp_diff zp_reverse zp_add zp_neg zp_sub zp_subin zp_add_s zp_addin_s zp_sub_s zp_subin_s zp_s_sub zp_mul_s
   zp_div_s zp_mul zp_stdmul zp_karamul zp_mulin zp_sqr zp_invmodpowx zp_div zp_divmod zp_divmodin zp_mod zp_modin
   zp_pdivmod zp_pmod zp_gcd zp_gcdext zp_invmod zp_invmodunit zp_lcm zp_pow zp_powmod zp_axpy zp_axpy_s
-  zp_axpyin zp_addin zp_isDivisor zp_modpowx zp_div_sp zp_mod_sp zp_mul_trunc zp_power_compose zp_interpolate zp_crt_toring zp_crt_torns zp_maxpy zp_maxpyin zp_maxpyin_s zp_axmy zp_axmy_s zp_axmyin zp_axmyin_s.
+  zp_axpyin zp_addin zp_isDivisor zp_modpowx zp_div_sp zp_mod_sp zp_mul_trunc zp_power_compose zp_interpolate zp_crt_toring zp_crt_torns zp_maxpy zp_maxpyin zp_maxpyin_s zp_axmy zp_axmy_s zp_axmyin zp_axmyin_s
+  zp_shiftin zp_getEntry zp_setEntry zp_val zp_maxpy_s zp_mod_ps zp_midmul zp_stdmidmul zp_karamidmul zp_midmul_raw zp_stdmidmul_raw zp_karamidmul_raw zp_mul_r zp_stdmul_r zp_karamul_r zp_sqr_r zp_stdsqr_r zp_sqrrec_r zp_subin_range zp_subin_grow zp_subin_at.
 Cd "..".
